@@ -9,7 +9,10 @@ Open Scope Z_scope.
 
 Inductive case :=
 | AdvCase (spec_driven : bool)
-          (params : list (Z * string))  (* spec-driven: the spec's extension after construction (ID, Value); plain: entries read from the wire *)
+          (params : list (Z * string))  (* spec-driven: the SPEC's extension (ID, Value), untouched by the dial; plain: entries read from the wire *)
+          (suppress : list Z)           (* QUICSpec.SuppressTransportParams *)
+          (randomize : bool)            (* QUICSpec.RandomizeTransportParams: the wire order is an oracle *)
+          (scid : string)               (* the connection's source connection ID *)
           (rawcfg : list Z)             (* the Config as the user passed it *)
           (peer_idle : Z)               (* the peer's max_idle_timeout, ns *)
           (wire : string)               (* quic_transport_parameters extension bytes of the ClientHello *)
@@ -45,7 +48,7 @@ Definition enf_list (c : config) : list Z :=
 
 Definition model_obs (c : case) : obs :=
   match c with
-  | AdvCase sd params rawcfg peer_idle wire override _ _ _ _ probes =>
+  | AdvCase sd params sup rnd scid rawcfg peer_idle wire override _ _ _ _ probes =>
     let ps := map (fun p => (fst p, hx (snd p))) params in
     let w := hx wire in
     let cfg0 := populate (config_of_list rawcfg) in
@@ -57,7 +60,9 @@ Definition model_obs (c : case) : obs :=
     let e := mkEnv a (if sd then enforced_spec a cfg0 else enforced cfg0) in
     mkObs
       (match parse w with
-       | Some l => same_mod_vi ps l && eq_bytes (marshal l) w
+       | Some l =>
+         let expected := dial_list sup (hx scid) ps in
+         (if rnd then perm_mod_vi expected l else same_mod_vi expected l) && eq_bytes (marshal l) w
        | None => false
        end)
       (match override with
@@ -77,7 +82,7 @@ Definition model_obs (c : case) : obs :=
 
 Definition check_case (c : case) : bool :=
   match c with
-  | AdvCase _ _ _ _ _ _ adv rec enf idle probes =>
+  | AdvCase _ _ _ _ _ _ _ _ _ adv rec enf idle probes =>
     let o := model_obs c in
     o_wire_ok o && o_override_ok o && eq_bytes (o_adv o) adv && eq_bytes (o_rec o) rec &&
     eq_bytes (o_enf o) enf && (o_idle o =? idle) && eq_bytes (o_codes o) (map snd probes) && o_plain_ok o
